@@ -267,6 +267,10 @@ Qed.
 (* ------------------------------------------------------------------ *)
 (* the queries the node builds                                        *)
 
+Lemma enc_request_nonempty rq : enc_request rq <> [].
+Proof. destruct rq; apply ser_map_nonempty. Qed.
+#[local] Hint Resolve enc_request_nonempty : nonempty.
+
 Lemma req_length tid rq :
   exists b, encode_msg (mkMsg tid (Req rq)) = Some b /\
             length b = 14 + slen (length tid) + slen (length (method_name rq)) + length (enc_request rq).
